@@ -7,10 +7,19 @@ import Vita.C02.Lemmas
 namespace Vita.C02
 open Vita.IntE GenSem
 
-/-- construction / mutation / destroy_block: cell `(i, c)` of a `rows × cats` genome, patch length
-    `pl`, first integer parameter `p0` (destroy_block: `index`) -/
-def cellEnv (rows pl cats i c : Nat) (p0 : Nat := 0) : Env :=
-  ({ rows := rows, patch := pl, cats := cats, i := i, c := c, p0 := p0 } : Vars).env
+/-- mutation / destroy_block: cell `(i, c)` of an individual with `rows × cats` genes – ITS OWN
+    geometry – handled under the environment `env` of the problem passed to the operator (whose
+    `code_length` need not be `rows`); first integer parameter `p0` (destroy_block: `index`) -/
+def cellEnv (rows : Nat) (env : MepEnv) (cats i c : Nat) (p0 : Nat := 0) : Env :=
+  ({ rows := rows, patch := env.patchLength, cats := cats, i := i, c := c, p0 := p0,
+     codeLen := env.codeLength, ssCats := cats } : Vars).env
+
+/-- `i_mep(problem)`: the genome is built as `genome_(dims.1, dims.2)` from the fields of the problem
+    (`Gen.ctorDims`); inside the body `size()` / `categories()` are the dimensions just built -/
+def ctorEnv (env : MepEnv) (sscats i c : Nat) : Env :=
+  let ρ0 := ({ patch := env.patchLength, codeLen := env.codeLength, ssCats := sscats } : Vars).env
+  ({ rows := evalZ ρ0 Gen.ctorDims.1, cats := evalZ ρ0 Gen.ctorDims.2, patch := env.patchLength,
+     i := i, c := c, codeLen := env.codeLength, ssCats := sscats } : Vars).env
 
 /-- crossover: cell `(i, c)`, the integers drawn so far are `d0`, `d1` -/
 def xEnv (rows cats : Nat) (d0 d1 : Int) (i c : Nat) : Env :=
@@ -19,7 +28,8 @@ def xEnv (rows cats : Nat) (d0 d1 : Int) (i c : Nat) : Env :=
 /-- gene(s, from, sup) -/
 def geneEnv (lo sup : Nat) : Env := ({ p0 := lo, p1 := sup } : Vars).env
 
-/-- team loops: `n` members, member index `k` -/
+/-- team loops: `n` members (`team(problem)`: `env.team.individuals`; `crossover(team, team)`:
+    `lhs.individuals()`), member index `k` -/
 def teamEnv (n k : Nat) : Env := ({ n := n, k := k } : Vars).env
 
 end Vita.C02
